@@ -161,6 +161,15 @@ def shrink_violation(mod, first: dict, budget_execs=250, budget_s=45.0):
         # shrinking must never lose the violation; fall back to the original tape
         final = run_case(mod, first["seed"], params, replay=first["tape"], keep_labels=True)
         best = first["tape"]
+        undecided = {"reference.timeout", "reference.too_slow", "wall_timeout_undecided"} & set(final.get("probes", {}))
+        if final["status"] == "ok" and undecided:
+            # the re-run could not be decided (machine too slow for this document right now): report the violation as found,
+            # with its original, unshrunk tape
+            first = dict(first)
+            first.setdefault("labels", None)
+            first["shrink_execs"] = 0
+            first["orig_len"] = len(first["tape"])
+            return first
         if not (final["status"] == "violation" and final["klass"] == klass and final["signature"] == sig):
             # the violation does not replay from its own tape: the simulator lost control of something
             return {"status": "harness_error", "seed": first["seed"], "params": params,
